@@ -74,3 +74,83 @@ Proof.
   split; [exact (bg_history_refines mb Hmb tab es _ HB)|exact (bg_history_invariant mb Hmb tab es _ HB)].
 Qed.
 Print Assumptions C09_history_from_loaded.
+
+(* ---- the saved text itself ---- *)
+From AV Require Import model.CFS_tload proofs.CFS_rt_defs proofs.CFS_line_proofs proofs.CFS_ents_inv proofs.CFS_tree_rt proofs.CFS_roundtrip.
+
+(* Whenever MarshalManifest returns a text, loading that text (the loader of model/CFS_tload.v, which
+   every run compares with the inode-table loader and through it with Go's loadManifest) yields a tree
+   whose listing - every path, every directory, every file with its exact bytes - equals the listing
+   of the plain byte-array filesystem the collection denotes.  Proved for every good state; the three
+   computable side conditions are what the theorem needs of the environment and of the recursion
+   bound, and each of them is evaluated on every save of every case (CFS_run.rt_ready, tab_ok_b):
+     tab_ok_b  locators are separator-free tokens stating their block's size, and equal locators name
+               equal blocks (no hash collision among the blocks of the case);
+     in_tab_b  every block in the store has a locator in the table;
+     ready     after the save's synchronous flush every file reachable from the root holds stored
+               segments only, and the tree is no deeper than its inode table is long. *)
+Theorem C09_saved_manifest_loads_back : forall mb, 1 <= mb -> forall tab st st1 txt,
+  BInv mb st -> EntsOK (Conc mb) (fsys mb st) ->
+  b_marshal mb tab st = (st1, Ok txt) ->
+  tab_ok_b tab = true -> in_tab_b tab (blocks mb st1) = true ->
+  ready mb (List.length (inodes (Conc mb) (fsys mb st1))) (fsys mb st1) root_id = true ->
+  exists t, t_load tab txt = Some t /\
+            listing_T "." t = tree_listing Spec (fun b => b) (abs mb (fsys mb st)).
+Proof.
+  intros mb Hmb tab st st1 txt HB HE Em Ht Hi Hr.
+  exact (b_marshal_round_trip mb Hmb tab st st1 txt (tab_ok_b_spec tab Ht) HB HE Em (in_tab_b_spec tab _ Hi) Hr).
+Qed.
+Print Assumptions C09_saved_manifest_loads_back.
+
+(* ... in particular after ANY history from the empty collection (BInv and sorted, valid entry names
+   are invariants of every history: C09_stored_segments_accounted, bg_history_EntsOK) *)
+Theorem C09_every_save_round_trips : forall mb, 1 <= mb -> forall tab es st1 txt,
+  let st := bfinal mb tab (binit mb tab (fs_init (Conc mb))) es in
+  b_marshal mb tab st = (st1, Ok txt) ->
+  tab_ok_b tab = true -> in_tab_b tab (blocks mb st1) = true ->
+  ready mb (List.length (inodes (Conc mb) (fsys mb st1))) (fsys mb st1) root_id = true ->
+  exists t, t_load tab txt = Some t /\
+            listing_T "." t = tree_listing Spec (fun b => b) (abs mb (fsys mb st)).
+Proof.
+  intros mb Hmb tab es st1 txt st Em Ht Hi Hr.
+  apply (C09_saved_manifest_loads_back mb Hmb tab st st1 txt); try assumption.
+  - apply (C09_stored_segments_accounted mb Hmb tab es).
+  - apply (bg_history_EntsOK mb Hmb tab _ es). apply EntsOK_init.
+Qed.
+Print Assumptions C09_every_save_round_trips.
+
+(* ... and after any history that starts from a loaded manifest *)
+Theorem C09_every_save_round_trips_from_loaded : forall mb, 1 <= mb -> forall tab,
+  (forall d l n rest h, In (d, l) tab -> splitn3 "+"%char l = h :: n :: rest ->
+     forall k, parse_dec n = Some k -> k = List.length d) ->
+  forall txt0 s0 es st1 txt, b_load mb tab txt0 = Ok s0 ->
+  let st := bfinal mb tab (binit mb tab s0) es in
+  b_marshal mb tab st = (st1, Ok txt) ->
+  tab_ok_b tab = true -> in_tab_b tab (blocks mb st1) = true ->
+  ready mb (List.length (inodes (Conc mb) (fsys mb st1))) (fsys mb st1) root_id = true ->
+  exists t, t_load tab txt = Some t /\
+            listing_T "." t = tree_listing Spec (fun b => b) (abs mb (fsys mb st)).
+Proof.
+  intros mb Hmb tab Htab txt0 s0 es st1 txt Hl st Em Ht Hi Hr.
+  apply (C09_saved_manifest_loads_back mb Hmb tab st st1 txt); try assumption.
+  - apply (C09_history_from_loaded mb Hmb tab Htab txt0 s0 es Hl).
+  - apply (bg_history_EntsOK mb Hmb tab s0 es). exact (b_load_EntsOK mb tab txt0 s0 Hl).
+Qed.
+Print Assumptions C09_every_save_round_trips_from_loaded.
+
+Local Open Scope string_scope.
+Local Open Scope list_scope.
+Import ListNotations.
+(* the conditions are satisfiable: a collection with a nested directory, two files and an empty
+   directory, written through handles and then saved *)
+Example C09_round_trip_conditions_met :
+  let mb := 8 in
+  let fl := {| o_acc := 2; o_create := true; o_excl := false; o_trunc := false; o_append := false; o_sync := false |} in
+  let tab := [([1; 2; 3], "aaaa+3"); ([4; 5], "bbbb+2")] in
+  let es := [EOp (OMkdir "d") VUnit; EOp (OMkdir "e") VUnit; EOp (OOpen "d/f" fl) (VNat 0); EOp (OWrite 0 [1; 2; 3]) (VNat 3);
+             EOp (OOpen "g" fl) (VNat 1); EOp (OWrite 1 [4; 5]) (VNat 2)] in
+  let st := bfinal mb tab (binit mb tab (fs_init (Conc mb))) es in
+  exists st1 txt, b_marshal mb tab st = (st1, Ok txt) /\ tab_ok_b tab = true /\ in_tab_b tab (blocks mb st1) = true /\
+    ready mb (List.length (inodes (Conc mb) (fsys mb st1))) (fsys mb st1) root_id = true /\
+    t_load tab txt = Some (TD [("d", TD [("f", TF [1; 2; 3])]); ("e", TD []); ("g", TF [4; 5])]).
+Proof. cbv zeta. eexists. eexists. split; [vm_compute; reflexivity|]. repeat split; vm_compute; reflexivity. Qed.
